@@ -22,5 +22,7 @@ def run(run_, tier):
     samplers_model.sample_chain_contract(run_, it, "C15")
     samplers_stage.sequential_loop(run_, it, "C15")
     samplers_stage.stage_loop(run_, "C15", it)
+    from . import c14
+    c14.parallel(run_, it, prop="C15")
     run_.extraction_drops.extend(sorted(it.dropped))
     run_.notes.append(f"paths explored: {it.paths}")
